@@ -27,11 +27,8 @@ import (
 	"reflect"
 	"regexp"
 	"strings"
-	"time"
 	"unicode"
 	"unicode/utf8"
-
-	compact_time "github.com/kstenerud/go-compact-time"
 )
 
 // Numeric
@@ -200,23 +197,4 @@ func ElementCountToByteCount(elementBitWidth int, elementCount uint64) uint64 {
 		byteCount++
 	}
 	return byteCount
-}
-
-// Go's time.Time counts years astronomically (year 0 is 1 BC, year -1 is 2 BC),
-// while Concise Encoding has no year 0 (-1 is 1 BC). These two functions
-// convert between the two numberings.
-
-func GoTimeToCompactTime(t time.Time) compact_time.Time {
-	ct := compact_time.AsCompactTime(t)
-	if ct.Type != compact_time.TimeTypeTime && ct.Year <= 0 {
-		ct.Year--
-	}
-	return ct
-}
-
-func CompactTimeToGoTime(ct compact_time.Time) (time.Time, error) {
-	if ct.Type != compact_time.TimeTypeTime && ct.Year < 0 {
-		ct.Year++
-	}
-	return ct.AsGoTime()
 }
